@@ -640,8 +640,6 @@ def eval_node(n, raw, halo, box, vel, euler):
         return np.any(v != 0, axis=1)[:, None]
     a = [eval_node(c, raw, halo, box, vel, euler) for c in n[1:]]
 
-    def col(v):
-        return v
     if op in ('add', 'sub', 'mul', 'div', 'mod'):
         x, y = a
         x, y = np.asarray(x, dtype=np.float64), np.asarray(y, dtype=np.float64)
